@@ -605,9 +605,9 @@ PROPS["C14"] = dict(
          "worker-exit < Call < woken Wait (starvation-mode FIFO hand-off verified from the mutex word); Wait must not have returned while the new worker's "
          "function is held; reported only if 3/3 repetitions with verified order agree; F record vs the model run for that order. non-trivial = K1 case with >= 2 functions running and a non-empty queue at "
          "quiescent points (distinct by program + action sequence), or a burst with >= 2 different counts",
-    stages=[corr_stage("C14K1", 250, 2500, feature=feat_c14, seeds=3),
-            corr_stage("C14K2", 400, 2000, feature=feat_c14, seeds=3),
-            corr_stage("C14L", 40, 400, feature=feat_c14, seeds=3)],
+    stages=[corr_stage("C14K1", 600, 2500, feature=feat_c14, seeds=3),
+            corr_stage("C14K2", 1000, 2000, feature=feat_c14, seeds=3),
+            corr_stage("C14L", 100, 400, feature=feat_c14, seeds=3)],
 )
 
 # ---------------------------------------------------------------------------------------------------------------
@@ -642,8 +642,8 @@ PROPS["C17"] = dict(
          "returned, library goroutines above baseline, blocked Do calls) must equal the model's. K2: 2-5 goroutines x 1-3 Do..done holds with jitter, or a relay where "
          "the last done races the next Do; history incl. instance start/saw-stop/return events must be a model history. non-trivial = K1 case where a Do was blocked "
          "by a stop phase and a second instance started, or K2 history with >=6 ops and an instance restart; distinct by op sequence",
-    stages=[corr_stage("C17K1", 250, 2000, feature=feat_c17, seeds=3),
-            corr_stage("C17K2", 300, 5000, feature=feat_c17, seeds=3)],
+    stages=[corr_stage("C17K1", 600, 2000, feature=feat_c17, seeds=3),
+            corr_stage("C17K2", 800, 5000, feature=feat_c17, seeds=3)],
 )
 
 # ---------------------------------------------------------------------------------------------------------------
@@ -679,8 +679,8 @@ PROPS["C20"] = dict(
          "decided by the model; C20T: per unit one millisecond-scale case (rates 2-5 ms / 0.2-1 ms / 1-40 us; receiver prompt, slow or absent; five cancellation "
          "plans) plus four race cases (rate 1 ns - 1 us, spinning receiver, instantaneous cancel). non-trivial = K1 case in which a producer existed and the scenario "
          "received or cancelled after the call, or a timed case cut short by cancellation / with values after cancellation / completed with count >= 2; distinct by tuple",
-    stages=[corr_stage("C20K1", 800, 6000, feature=feat_c20, seeds=2),
-            corr_stage("C20T", 600, 5000, feature=feat_c20, seeds=2)],
+    stages=[corr_stage("C20K1", 1500, 6000, feature=feat_c20, seeds=2),
+            corr_stage("C20T", 1200, 5000, feature=feat_c20, seeds=2)],
 )
 
 # ---------------------------------------------------------------------------------------------------------------
@@ -717,10 +717,10 @@ PROPS["C16"] = dict(
          "inputs (4 thorough) x cancel() at every position; plus seeded random forests. Outputs per op (cancelled, f calls, pending registrations, waiter goroutines, "
          "result identity) and Value lookups must equal the model. C16RACE: simultaneous cancels released by a barrier, half racing the call itself, with monitors. "
          "non-trivial = K1 case in which a cancel during or after the call changes an observable; distinct by configuration + op sequence",
-    stages=[corr_stage("C16K1", 120, 1500, params={"maxn": 3, "kinds": 1}, feature=feat_c16, seeds=3),
-            corr_stage("C16RACE", 600, 20000, params={"kinds": 1}, feature=feat_c16, seeds=3),
-            corr_stage("C16K1", 300, 4000, params={"maxn": 3, "kinds": 6}, tparams={"maxn": 4}, feature=feat_c16, seeds=3),
-            corr_stage("C16RACE", 1200, 30000, params={"kinds": 6}, feature=feat_c16, seeds=3)],
+    stages=[corr_stage("C16K1", 1500, 1500, params={"maxn": 3, "kinds": 1}, feature=feat_c16, seeds=3),
+            corr_stage("C16RACE", 10000, 20000, params={"kinds": 1}, feature=feat_c16, seeds=3),
+            corr_stage("C16K1", 2500, 4000, params={"maxn": 3, "kinds": 6}, tparams={"maxn": 4}, feature=feat_c16, seeds=3),
+            corr_stage("C16RACE", 15000, 30000, params={"kinds": 6}, feature=feat_c16, seeds=3)],
 )
 
 # ---------------------------------------------------------------------------------------------------------------
@@ -756,8 +756,8 @@ PROPS["C06"] = dict(
                "refuted without the write lock. Tie: Go monitors + delay-bounded sweep."
                " Added (DESIGN 5b): every subscriber tracked by index (received by exactly `sent` distinct subscribers), standing => included from an invariant, split atomic steps re-proved (38 theorems).",
     level_note=_PS_NOTE,
-    stages=[corr_stage("C06K2", 1000, 6000, feature=feat_pubsub, seeds=3),
-            corr_stage("C06S", 3, 10, feature=feat_pubsub, instrument=True, shards=6, tparams={"hits": 6}, timeout=1200)],
+    stages=[corr_stage("C06K2", 4000, 6000, feature=feat_pubsub, seeds=3),
+            corr_stage("C06S", 6, 10, feature=feat_pubsub, instrument=True, shards=6, tparams={"hits": 6}, timeout=1200)],
 )
 PROPS["C07"] = dict(
     rule="C06K2 and C06S as for C06 (different programs: salt 7) with the C07 monitors: every call returns within 3 s (hang = MONITOR with the blocked calls), no panic "
@@ -769,9 +769,9 @@ PROPS["C07"] = dict(
                "refuted when an unsubscribe during delivery is not routed through the caster. Tie: Go monitors + delay-bounded sweep + sanity differential."
                " Added (DESIGN 5b): SubscribeContext AfterFunc/stop/iterator pairing model (at most one Unsubscribe, exactly one in terminal states after cancel-or-run; ignoring stop() refuted), split-step model (30 theorems).",
     level_note=_PS_NOTE,
-    stages=[corr_stage("C06K2", 1000, 6000, feature=feat_pubsub, seeds=3, params={"salt": 7}),
-            corr_stage("C06S", 3, 10, feature=feat_pubsub, instrument=True, shards=6, params={"salt": 7}, tparams={"hits": 6}, timeout=1200),
-            corr_stage("C07SAN", 300, 20000, feature=feat_pubsub)],
+    stages=[corr_stage("C06K2", 4000, 6000, feature=feat_pubsub, seeds=3, params={"salt": 7}),
+            corr_stage("C06S", 6, 10, feature=feat_pubsub, instrument=True, shards=6, params={"salt": 7}, tparams={"hits": 6}, timeout=1200),
+            corr_stage("C07SAN", 3000, 20000, feature=feat_pubsub)],
 )
 
 
@@ -844,8 +844,8 @@ _EXCL_NOTE = ("Trusted: Coq kernel, extraction (ExtrOcamlBasic), OCaml adapter (
               "deadlock freedom (item before map) is argued, not modelled. Its tie to the code is the monitors on gated/free-running/delay-swept histories.")
 
 _EXCL_STAGES = lambda: [
-    corr_stage("C09K1", 500, 6000, feature=feat_c09, seeds=3),
-    corr_stage("C09K2", 400, 5000, feature=feat_c09, seeds=3),
+    corr_stage("C09K1", 1000, 6000, feature=feat_c09, seeds=3),
+    corr_stage("C09K2", 800, 5000, feature=feat_c09, seeds=3),
     corr_stage("C09S", 6, 20, feature=feat_c09, instrument=True, shards=6, tparams={"points": 1000}),
 ]
 
